@@ -58,6 +58,21 @@ func ZZH_C06_odd_ids() {
 	zzTimeoutPipeline()
 }
 
+// ZZH_C06_unordered: the same lifecycle when the source service, the destination service or both are
+// registered as unordered (their receipts / requests are "batch" IBTPs for the interchain contract).
+// zz:also C04
+func ZZH_C06_unordered() {
+	which := zz.Choice("unordered", 3) // 0 source, 1 destination, 2 both
+	if which != 1 {
+		zzUnordered["chA:"+zzSrcSvc] = true
+	}
+	if which != 0 {
+		zzUnordered["chB:sB"] = true
+	}
+	zz.Tag("C06.F-batch-request-never-times-out", which != 0)
+	zzTimeoutPipeline()
+}
+
 func zzTimeoutPipeline() {
 	exec := zzNewExec(1, big.NewInt(0))
 	exec.ibtpVerify = &zzStubVerify{verdict: make([]uint8, 8), seen: make([]int, 8)}
